@@ -5,6 +5,8 @@ from __future__ import annotations
 import os
 import re
 
+import json
+
 import numpy as np
 
 from rnaverif import atomtab, corpus, gen3d, geomref
@@ -104,10 +106,48 @@ def original(fn, find_gaps):
     return _cache[key]
 
 
+_thin_cache = {}
+
+
+def base_structure(case):
+    """the corpus structure, or - thin_purines - the same with drawn purines modelled incompletely (no phosphate group and
+    either no O5', C5', N2 or only six base atoms): residues at the border of what counts as a nucleotide, whose
+    classification must not depend on how their atoms are listed either"""
+    fn = case["file"]
+    thin = case.get("thin_purines")
+    if not thin:
+        return corpus.structure(fn)
+    key = (fn, json.dumps(thin))
+    if key not in _thin_cache:
+        s3 = corpus.structure(fn)
+        n = len(s3.residues)
+        plan = {}
+        for idx, how in thin:
+            r = s3.residues[idx % n]
+            if r.one_letter_name.upper() in ("A", "G"):
+                plan[idx % n] = how
+        phosphate = {"P", "OP1", "OP2", "OP3", "O1P", "O2P", "O3P"}
+        six = {"N9", "C8", "N7", "C4", "N1", "C2"}
+        sugar = {"C1'", "C2'", "C3'", "C4'", "C5'", "O2'", "O3'", "O4'", "O5'"}
+
+        def ak(ri, k):
+            if ri not in plan:
+                return True
+            name = s3.residues[ri].atoms[k].name
+            if name in phosphate:
+                return False
+            if plan[ri] == "no-O5-C5-N2":
+                return name not in ("O5'", "C5'", "N2")
+            return name in six or name in sugar
+
+        _thin_cache[key] = gen3d.rebuild(s3, atom_keep=ak if plan else None)
+    return _thin_cache[key]
+
+
 def transform(case):
     """returns (s3', ident_map new->old, chain_map old->new)"""
     fn = case["file"]
-    s3 = corpus.structure(fn)
+    s3 = base_structure(case)
     R = np.array(case["rot"], dtype=float)
     if abs(np.linalg.det(R) - 1) > 1e-9:
         raise HarnessError("rotation not proper")
@@ -155,7 +195,7 @@ def transform(case):
 def oracle_transform(case):
     fn = case["file"]
     fg = case["find_gaps"]
-    ref = original(fn, fg)
+    ref = original(fn, fg) if not case.get("thin_purines") else normalise(annotate(base_structure(case), fg))
     s3n, ident_map, chain_map = transform(case)
     got = normalise(annotate(s3n, fg), ident_map, chain_map)
     # identities in `ref` are the original ones already
@@ -165,7 +205,7 @@ def oracle_transform(case):
     info["nt"] = bool(base["basePairs"]) and bool(base["stackings"]) and bool(base["basePhosphate"] or base["baseRibose"])
     if not dd:
         return []
-    m = min(min_margin(corpus.structure(fn)), min_margin(s3n))
+    m = min(min_margin(base_structure(case)), min_margin(s3n))
     if m <= geomref.EPS:
         info["undecided"] = True
         return []
@@ -531,6 +571,8 @@ def st_transform(files):
         "renumber": st.sampled_from([[1, 0], [1, 0], [1, 1000], [1, -500], [2, 3], [3, 0]]),
         "find_gaps": st.booleans(),
         "icode_runs": st.sampled_from([0, 0, 0, 2, 3]),
+        "thin_purines": st.one_of(st.none(), st.none(), st.lists(st.tuples(st.integers(0, 400), st.sampled_from(["no-O5-C5-N2", "six-base-atoms"])).map(list),
+                                                                  min_size=1, max_size=4)),
     })
 
 
